@@ -42,10 +42,10 @@ TRANSPARENT = {
     'flatten', 'uniques', 'first', 'unlistify', 'filter', 'map', 'enumerate',
     'zip', 'iterutils.iterate', 'iterutils.listify', 'iterutils.uniques',
     'iterutils.tween', 'tween', 'iterutils.flatten', 'iterutils.first',
-    'dict', 'str', 'copy.copy', 'deepcopy', 'copy.deepcopy',
+    'dict', 'copy.copy', 'deepcopy', 'copy.deepcopy',
     'shell_list', 'shell.shell_list', 'option_list', 'opts.option_list',
-    'safe_str.safe_str', 'safe_str', 'jbos', 'safe_str.jbos', 'type',
-    'any', 'all', 'bool', 'len', 'repr', 'functools.partial', 'partial',
+    'safe_str.safe_str', 'safe_str', 'jbos', 'safe_str.jbos',
+    'functools.partial', 'partial',
 }
 TRANSPARENT_METHODS = {'copy', 'items', 'values', 'keys', 'get', 'pop',
                        'setdefault', 'format', 'join', 'split', 'strip',
@@ -61,6 +61,8 @@ class Flow:
         self.max_depth = max_depth
         self._defs = {}
         self._memo = {}
+        self._tables = {}
+        self._partial = {}
         self._allocs = {}
 
     # -- definitions of locals -------------------------------------------
@@ -86,7 +88,7 @@ class Flow:
                 bind_target(t.value, kind, expr, idx)
             elif isinstance(t, ast.Subscript) and isinstance(
                     t.value, ast.Name):
-                add(t.value.id, 'value', expr, None)
+                add(t.value.id, 'item', expr, t.slice)
             elif isinstance(t, ast.Attribute):
                 pass
 
@@ -177,7 +179,7 @@ class Flow:
             out = self._atoms(e, fn, bind, depth, _seen)
         finally:
             _seen.discard(key)
-        if mkey is not None and not _seen:
+        if mkey is not None and not _seen and not self._partial:
             self._memo[mkey] = frozenset(out)
         return out
 
@@ -289,10 +291,24 @@ class Flow:
                     r = self._target_index(g.target, name_node.id)
                     if r is not None:
                         return g.iter, (None if r == () else r[0])
+            if isinstance(p, (ast.For, ast.AsyncFor)) and any(
+                    n is x for x in p.body):
+                r = self._target_index(p.target, name_node.id)
+                if r is not None and not self._rebound_in(
+                        p.body, name_node.id):
+                    return p.iter, (None if r == () else r[0])
             if isinstance(p, (ast.FunctionDef, ast.AsyncFunctionDef,
                               ast.Lambda)):
                 return None
             n = p
+
+    def _rebound_in(self, body, name):
+        for st in body:
+            for x in ast.walk(st):
+                if isinstance(x, ast.Name) and x.id == name and isinstance(
+                        x.ctx, (ast.Store, ast.Del)):
+                    return True
+        return False
 
     def _target_index(self, t, name):
         if isinstance(t, ast.Name):
@@ -312,6 +328,7 @@ class Flow:
         `outs.host.path` give the same atom), plus the root's own atoms (a
         flow through part of an object is a flow from the object)."""
         suffix = []
+        multi = None
         root = e
         while isinstance(root, (ast.Attribute, ast.Subscript)):
             if isinstance(root, ast.Attribute):
@@ -320,9 +337,23 @@ class Flow:
                 kt = self._key_text(root.slice, fn)
                 if kt:
                     suffix.append('[' + kt + ']')
-                # computed keys: element access is transparent
+                else:
+                    ks = self.const_keys(root.slice, fn, bind, _seen)
+                    if ks is not None and len(ks) <= 8 and multi is None:
+                        multi = (len(suffix), ks)
+                        suffix.append(None)
+                # other computed keys: element access is transparent
             root = root.value
-        suf = ''.join(reversed(suffix))
+        if multi is not None:
+            pos, ks = multi
+            sufs = []
+            for kk in ks:
+                s2 = list(suffix)
+                s2[pos] = '[' + repr(kk) + ']'
+                sufs.append(''.join(reversed(s2)))
+        else:
+            sufs = [''.join(reversed(suffix))]
+        suf = sufs[0]
         out = set()
         # a value selected by a computed key depends on the key
         r_ = e
@@ -337,7 +368,8 @@ class Flow:
         if isinstance(root, ast.Name) and fn is not None and not \
                 self._is_local(root.id, fn):
             # global / imported name: canonical text as is
-            out.add(root.id + suf)
+            for sf in sufs:
+                out.add(root.id + sf)
             r = self.repo.resolve_expr(fn.module, e, self.repo.local_scope(
                 fn)) if isinstance(e, ast.Attribute) else None
             if r is not None and r[0] == 'value' and r[3] is not None and \
@@ -360,7 +392,32 @@ class Flow:
             else:
                 roots = texts
         else:
-            roots = self.atoms(root, fn, bind, depth, _seen)
+            roots = None
+            if isinstance(root, ast.Name) and fn is not None:
+                # innermost accessor applied to the root
+                first = e
+                while isinstance(first.value, (ast.Attribute,
+                                               ast.Subscript)):
+                    first = first.value
+                if isinstance(first, ast.Subscript):
+                    lf = self._local_field(root.id, first.slice, fn, bind,
+                                           depth, _seen)
+                    if lf is not None:
+                        roots, stored = lf
+                        # values stored under this key: the remaining
+                        # accessors apply to them, the subscript itself
+                        # does not
+                        rest = self._suffix_after(e, first, fn, bind, _seen)
+                        for r in stored:
+                            if r.startswith(('const:', 'key:')):
+                                continue
+                            if r.startswith(('alloc:', 'via:')) or not rest:
+                                out.add(r)
+                            else:
+                                out.add((r[6:] if r.startswith('param:')
+                                         else r) + rest)
+            if roots is None:
+                roots = self.atoms(root, fn, bind, depth, _seen)
         for r in roots:
             if r.startswith(('const:', 'key:')):
                 continue
@@ -368,10 +425,24 @@ class Flow:
                 out.add(r)
                 continue
             base = r[6:] if r.startswith('param:') else r
-            out.add(base + suf)
+            for sf in sufs:
+                out.add(base + sf)
         if not out:
             out.add(unparse(e))
         return out
+
+    def _suffix_after(self, e, first, fn, bind, _seen):
+        parts = []
+        n = e
+        while n is not first:
+            if isinstance(n, ast.Attribute):
+                parts.append('.' + n.attr)
+            else:
+                kt = self._key_text(n.slice, fn)
+                if kt:
+                    parts.append('[' + kt + ']')
+            n = n.value
+        return ''.join(reversed(parts))
 
     def _key_text(self, k, fn):
         if isinstance(k, ast.Constant):
@@ -391,6 +462,120 @@ class Flow:
                 return True
         return False
 
+    def _bkey(self, bind):
+        if bind is None:
+            return None
+        return frozenset((k, frozenset(v)) for k, v in bind.items())
+
+    def _locals_table(self, sc, bind, depth):
+        """name -> atoms for every local of function `sc` (under a binding
+        of its parameters), computed as a least fixpoint over its
+        definitions, so mutually dependent locals (d[k] = f(d[j])) cost one
+        table instead of an exponential recursion."""
+        key = (sc.fq, self._bkey(bind), depth)
+        t = self._tables.get(key)
+        if t is not None:
+            return t
+        t = self._partial.get(key)
+        if t is not None:
+            return t                      # in progress: current estimate
+        ds_all = self.defs(sc.node)
+        table = {name: set() for name in ds_all}
+        plain = {name: set() for name in ds_all}
+        items = {name: {} for name in ds_all}
+        table['#plain'] = plain
+        table['#items'] = items
+        self._partial[key] = table
+        try:
+            for _round in range(6):
+                changed = False
+                for name, ds in ds_all.items():
+                    new = set()
+                    for kind, expr, idx in ds:
+                        sn = set()
+                        if kind == 'item':
+                            v = self.atoms(expr, sc, bind, depth, sn)
+                            items[name].setdefault(id(idx), (idx, set()))[
+                                1].update(v)
+                            new |= v
+                            continue
+                        before = set(new)
+                        if kind in ('value', 'seq'):
+                            new |= self.atoms(expr, sc, bind, depth, sn)
+                        elif kind == 'index':
+                            new |= self.elem_atoms(expr, idx, sc, bind,
+                                                   depth, sn)
+                        elif kind == 'elem':
+                            new |= self.iter_atoms(expr, None, sc, bind,
+                                                   depth, sn)
+                        elif kind == 'elemindex':
+                            new |= self.iter_atoms(expr, idx, sc, bind,
+                                                   depth, sn)
+                    if not new <= table[name]:
+                        table[name] |= new
+                        changed = True
+                    pl = set()
+                    for kind, expr, idx in ds:
+                        if kind != 'item':
+                            pl = None
+                            break
+                    if pl is None:
+                        # atoms from non-item definitions
+                        it_all = set()
+                        for _i, (_k, vs) in items[name].items():
+                            it_all |= vs
+                        plain[name] = self._plain_atoms(
+                            ds, sc, bind, depth)
+                if not changed:
+                    break
+        finally:
+            del self._partial[key]
+        self._tables[key] = table
+        return table
+
+    def _plain_atoms(self, ds, sc, bind, depth):
+        out = set()
+        for kind, expr, idx in ds:
+            sn = set()
+            if kind in ('value', 'seq'):
+                out |= self.atoms(expr, sc, bind, depth, sn)
+            elif kind == 'index':
+                out |= self.elem_atoms(expr, idx, sc, bind, depth, sn)
+            elif kind == 'elem':
+                out |= self.iter_atoms(expr, None, sc, bind, depth, sn)
+            elif kind == 'elemindex':
+                out |= self.iter_atoms(expr, idx, sc, bind, depth, sn)
+        return out
+
+    def _local_field(self, name, key_expr, fn, bind, depth, _seen):
+        """For `name[key]` where name is a local filled by item stores:
+        (atoms of the non-item definitions, atoms stored under a key that
+        may equal `key`). None when name has no item stores."""
+        for sc in self._scope_chain(fn):
+            ds = self.defs(sc.node).get(name)
+            if not ds:
+                if name in Q.params(sc.node):
+                    return None
+                continue
+            if not any(k == 'item' for k, e, i in ds):
+                return None
+            b = bind if sc is fn else None
+            t = self._locals_table(sc, b, depth)
+            want = self.const_keys(key_expr, fn, bind, _seen)
+            stored = set()
+            for _i, (kx, vs) in t['#items'].get(name, {}).items():
+                have = self.const_keys(kx, sc, b, _seen)
+                if want is None or have is None or set(want) & set(have):
+                    stored |= vs
+            pl = set(t['#plain'].get(name, set()))
+            if name in Q.params(sc.node):
+                if sc is fn and bind is not None and name in bind:
+                    pl |= bind[name]
+                else:
+                    pl.add('param:' + name)
+            return pl, stored
+        return None
+
     def _name_atoms(self, name, fn, bind, depth, _seen):
         out = set()
         if fn is None:
@@ -400,16 +585,9 @@ class Flow:
             is_param = name in Q.params(sc.node)
             if not ds and not is_param:
                 continue
-            for kind, expr, idx in ds:
-                b = bind if sc is fn else None
-                if kind == 'value' or kind == 'seq':
-                    out |= self.atoms(expr, sc, b, depth, _seen)
-                elif kind == 'index':
-                    out |= self.elem_atoms(expr, idx, sc, b, depth, _seen)
-                elif kind == 'elem':
-                    out |= self.iter_atoms(expr, None, sc, b, depth, _seen)
-                elif kind == 'elemindex':
-                    out |= self.iter_atoms(expr, idx, sc, b, depth, _seen)
+            b = bind if sc is fn else None
+            if ds:
+                out |= self._locals_table(sc, b, depth).get(name, set())
             if is_param:
                 if sc is fn and bind is not None and name in bind:
                     out |= bind[name]
@@ -483,6 +661,162 @@ class Flow:
                 if ds:
                     break
         return self.atoms(it, fn, bind, depth, _seen)
+
+    # -- records (dict-shaped values) ---------------------------------------
+    def const_keys(self, k, fn, bind=None, _seen=None):
+        """Constant values a key expression can take (a literal, or a loop
+        variable over a literal tuple); None when unknown."""
+        if isinstance(k, ast.Constant):
+            return [k.value]
+        if isinstance(k, ast.Attribute) and isinstance(k.value, ast.Name) \
+                and k.attr in ('name', 'value') and fn is not None:
+            return None
+        if isinstance(k, ast.Name) and fn is not None:
+            a = self.atoms(k, fn, bind, 0, _seen)
+            if a and all(x.startswith('const:') for x in a):
+                import ast as _a
+                try:
+                    return [_a.literal_eval(x[6:]) for x in sorted(a)]
+                except Exception:
+                    return None
+        return None
+
+    def record(self, e, fn, bind=None, depth=0, _seen=None):
+        """{key: [(value expr, fn, bind)]} for a dict-shaped expression --
+        a dict display, dict(...), a local built up by `d[k] = v` /
+        d.update(...), a conditional of those, or a repository function
+        returning one. Keys that are not constants are collected under
+        '*'. Returns None when `e` is not dict-shaped."""
+        _seen = _seen if _seen is not None else set()
+        key = (id(e), fn.fq if fn else None)
+        if key in _seen or depth > self.max_depth:
+            return None
+        _seen = _seen | {key}
+        out = {}
+
+        def put(k, v, f, b):
+            out.setdefault(k, []).append((v, f, b))
+
+        def merge(r):
+            if r:
+                for k, vs in r.items():
+                    out.setdefault(k, []).extend(vs)
+
+        if isinstance(e, ast.Dict):
+            for k, v in zip(e.keys, e.values):
+                if k is None:
+                    merge(self.record(v, fn, bind, depth, _seen))
+                    continue
+                ks = self.const_keys(k, fn, bind)
+                for kk in (ks if ks is not None else ['*']):
+                    put(kk, v, fn, bind)
+            return out
+        if isinstance(e, ast.DictComp):
+            put('*', e.value, fn, bind)
+            return out
+        if isinstance(e, ast.IfExp):
+            a = self.record(e.body, fn, bind, depth, _seen)
+            b = self.record(e.orelse, fn, bind, depth, _seen)
+            if a is None and b is None:
+                return None
+            merge(a)
+            merge(b)
+            return out
+        if isinstance(e, ast.Call):
+            fname = unparse(e.func)
+            if fname == 'dict':
+                for a in e.args:
+                    merge(self.record(a, fn, bind, depth, _seen))
+                for k in e.keywords:
+                    if k.arg:
+                        put(k.arg, k.value, fn, bind)
+                    else:
+                        merge(self.record(k.value, fn, bind, depth, _seen))
+                return out
+            callee = self.resolve_call(e, fn)
+            if callee is not None:
+                b = self._bind_args(e, callee, fn, bind, depth, set())
+                found = False
+                for r in self._returns(callee):
+                    rr = self.record(r, callee, b, depth + 1, _seen)
+                    if rr is not None:
+                        found = True
+                        merge(rr)
+                return out if found else None
+            return None
+        if isinstance(e, ast.Name) and fn is not None:
+            for sc in self._scope_chain(fn):
+                ds = self.defs(sc.node).get(e.id)
+                if not ds:
+                    continue
+                b = bind if sc is fn else None
+                found = False
+                for kind, expr, idx in ds:
+                    if kind == 'value':
+                        rr = self.record(expr, sc, b, depth, _seen)
+                        if rr is not None:
+                            found = True
+                            merge(rr)
+                    elif kind == 'item':
+                        found = True
+                        ks = self.const_keys(idx, sc, b)
+                        for kk in (ks if ks is not None else ['*']):
+                            put(kk, expr, sc, b)
+                    elif kind == 'seq':
+                        rr = self.record(expr, sc, b, depth, _seen)
+                        if rr is not None:
+                            found = True
+                            merge(rr)
+                return out if found else None
+            return None
+        return None
+
+    def rec_atoms(self, rec, key):
+        out = set()
+        for v, f, b in (rec or {}).get(key, []):
+            out |= self.atoms(v, f, b)
+        return out
+
+    def subrecord(self, rec, key):
+        out = {}
+        ok = False
+        for v, f, b in (rec or {}).get(key, []):
+            r = self.record(v, f, b)
+            if r is not None:
+                ok = True
+                for k, vs in r.items():
+                    out.setdefault(k, []).extend(vs)
+        return out if ok else None
+
+    def sequence(self, e, fn, bind=None, depth=0):
+        """[(element expr, fn, bind)] for a list/tuple-shaped expression (a
+        display, or a local/returned one); None when unknown or when the
+        possible shapes differ in length."""
+        if depth > self.max_depth:
+            return None
+        if isinstance(e, (ast.List, ast.Tuple)):
+            if any(isinstance(x, ast.Starred) for x in e.elts):
+                return None
+            return [(x, fn, bind) for x in e.elts]
+        if isinstance(e, ast.Name) and fn is not None:
+            for sc in self._scope_chain(fn):
+                ds = self.defs(sc.node).get(e.id)
+                if ds:
+                    if len(ds) == 1 and ds[0][0] == 'value':
+                        return self.sequence(ds[0][1], sc,
+                                             bind if sc is fn else None,
+                                             depth + 1)
+                    return None
+        if isinstance(e, ast.Call):
+            callee = self.resolve_call(e, fn) if fn is not None else None
+            if callee is not None:
+                b = self._bind_args(e, callee, fn, bind, depth, set())
+                seqs = [self.sequence(r, callee, b, depth + 1)
+                        for r in self._returns(callee)]
+                if seqs and all(q is not None for q in seqs) and \
+                        len({len(q) for q in seqs}) == 1:
+                    return seqs[0]
+        return None
 
     # -- calls ---------------------------------------------------------------
     def resolve_call(self, call, fn):
@@ -604,6 +938,12 @@ class Flow:
             for r in rets:
                 out |= self.atoms(r, callee, b, depth + 1, _seen)
             out.add(callee.qualname + '(' + self._arg_text(e) + ')')
+            # arguments may reach the result through stores the return
+            # atoms do not show (objects built field by field)
+            for a in args:
+                for x in A(a):
+                    if not x.startswith(('const:', 'key:', 'via:')):
+                        out.add('via:' + x)
             return out
         if isinstance(e.func, ast.Attribute):
             if e.func.attr in TRANSPARENT_METHODS:
